@@ -111,7 +111,8 @@ Definition main_on_error (pos : position) (o : outcome) : cli_result :=
   match o with
   | Message m =>
       let me := main_err_of pos in
-      if me_skips_diff me then Exit (me_status me) "" (render_writes m (me_writes me))
+      if me_skips_diff me
+      then Exit (me_status me) (render_writes m (me_stdout me)) (render_writes m (me_writes me))
       else Crash "builtins.AttributeError"      (* main() would go on to diff a str *)
   | Escapes c => match main_catch c with Some st => Exit st "" "" | None => Crash c end
   end.
@@ -147,20 +148,12 @@ Definition handler_total (raises : string -> list string) (ft : string) : bool :
   forallb (class_ok ft) (raises ft).
 
 Definition is_wtree (w : write) : bool := match w with WTree => true | WLit _ => false end.
+Definition no_writes (ws : list write) : bool := match ws with [] => true | _ :: _ => false end.
 Definition main_err_ok (me : main_err) : bool :=
-  existsb is_wtree (me_writes me) && negb (Z.eqb (me_status me) 0) && me_skips_diff me.
+  existsb is_wtree (me_writes me) && no_writes (me_stdout me) && negb (Z.eqb (me_status me) 0)
+  && me_skips_diff me.
 Definition main_ok : bool := main_err_ok main_err_first && main_err_ok main_err_second.
 
 (* the classes of `raises ft` the handler does not cover, with what the model says happens *)
 Definition failures (raises : string -> list string) (ft : string) : list (string * sym_outcome) :=
   filter (fun x => negb (class_ok ft (fst x))) (map (fun c => (c, handler_sym ft c)) (raises ft)).
-(* the model's own prediction for such a class, as a case, so that the class predicates of the open
-   findings can be asked whether they cover it *)
-Definition model_case (ft c : string) : c20_case :=
-  let e := {| e_class := c; e_str := ""; e_repr := ""; e_attrs := [] |} in
-  let path := "/d/f" in
-  {| c_ft := ft; c_pos := First; c_path := path; c_exn := Some e;
-     c_out := main_on_error First (handler ft path e) |}.
-Definition uncovered (kfs : list (c20_case -> bool)) (raises : string -> list string) (ft : string)
-  : list string :=
-  filter (fun c => negb (existsb (fun kf => kf (model_case ft c)) kfs)) (map fst (failures raises ft)).
